@@ -6,6 +6,7 @@ import PgVerif.Spec.Viable
 import PgVerif.Model.LineCol
 import PgVerif.Model.TableGen
 import PgVerif.Spec.LR1
+import PgVerif.Spec.LRValid
 import PgVerif.Spec.Prec
 import PgVerif.Spec.LexRules
 import PgVerif.Proofs.LexRules
@@ -432,6 +433,23 @@ def handle (st : St) (cmd : String) (args : List Nat) : St × String :=
     match args with
     | pos :: text => let r := posToLineCol text pos; (st, s!"linecol {r.1} {r.2}")
     | _ => (st, "bad-linecol")
+  | "lrvalid" =>
+    -- lrvalid <nstates {nitems {prod dot nla la*}*}*> <nnt {nul nfst fst*}*>: the completeness validator of
+    -- Spec/LRValid.lean on the current grammar and table with the implementation's item sets and FIRST data
+    match st.T, (do
+        let items ← rdList (rdList (do
+          let p ← rd; let d ← rd; let la ← rdList rd
+          pure ({ prod := p, dot := d, la := la } : LRV.VItem)))
+        let fd ← rdList (do let nul ← rd; let fst ← rdList rd; pure (nul != 0, fst))
+        pure (items, fd) : Rd _).run args with
+    | some T, some ((items, fd), _) =>
+      let I := fun s => items.getD s []
+      let F : LRV.FirstData := { fst := fun A => (fd.getD A (false, [])).2, nul := fun A => (fd.getD A (false, [])).1 }
+      (st, if LRV.lrComplete st.g T I F then "lrvalid 1" else
+        -- say which part fails
+        let bad := (List.range T.n).filter (fun s => !(I s).all (LRV.itemOK st.g T I F s))
+        s!"lrvalid 0 closed={F.closed st.g} start={LRV.hasItem (I 0) 0 0 []} badstates={bad.take 5}")
+    | _, _ => (st, "bad-lrvalid")
   | "fwf" => (st, if st.F.wf then "fwf 1" else "fwf 0")
   | "fkeyed" =>
     -- fkeyed <lhs of production 0> <lhs of production 1> ...: hypothesis of C03_parse_trees_pairwise_distinct
